@@ -13,10 +13,10 @@ from .obligations import OBLIGATIONS, TRUSTED_BASE
 
 SIZES = {
     # property: (directed quick, general quick, directed thorough, general thorough)
-    "default": (160, 60, 4000, 1500),
-    "C01": (200, 100, 6000, 3000),
-    "C10": (40, 30, 600, 300),
-    "C11": (25, 30, 300, 200),
+    "default": (500, 150, 20000, 6000),
+    "C01": (600, 250, 30000, 10000),
+    "C10": (80, 60, 2500, 1000),
+    "C11": (40, 60, 1200, 600),
 }
 
 
@@ -282,6 +282,14 @@ def evaluate(prop, results, rep, hbin, directed_names, counter, shrink_budget):
                 r.pdiv = d
                 div_fail.append(r)
     rep.cov["infrastructure_errors"] = infra
+    hangs = [r for r in results if r.status == "infra" and (r.error or "").startswith("hang")]
+    if len(hangs) >= 3:
+        # the real package does not return on these histories (the virtual clock alone hangs far more rarely)
+        hangs.sort(key=lambda r: len(r.script))
+        counter[0] += 1
+        p = write_replay(prop, counter[0], ["the real package did not return within the real-time limit on this history (%d histories hang)" % len(hangs),
+                                            "an API call that never returns violates every property that promises an answer"], hangs[0].script)
+        rep.violation(p, "the package hangs on %d histories (e.g. %s)" % (len(hangs), hangs[0].name))
     rep.cov["monitor_failures"] = len(mon_fail)
     rep.cov["correspondence_divergences_on_projection"] = len(div_fail)
     rep.cov["correspondence_divergences_all"] = sum(1 for r in results if r.div)
@@ -351,6 +359,8 @@ def check_lifecycle(prop, tier, seed, replay=None):
         rep.violation(p, "the verification harness does not build against the current tree, no correspondence can be established", no_input=True)
         return rep.finish()
     lean_part(rep, prop)
+    from . import facts
+    fact_msgs = facts.facts_for(rep, prop)
     if replay:
         with open(replay) as f:
             scripts = [("replay", f.read())]
@@ -406,4 +416,11 @@ def check_lifecycle(prop, tier, seed, replay=None):
         "virtual clock of the Go runtime (faketime); thresholds are never hit at the exact instant of equality unless they are 0",
     ]
     evaluate(prop, results, rep, hbin, directed, counter, shrink_budget=(30 if tier == "quick" else 120))
+    if prop == "C04" and not replay:
+        from . import mxlib
+        try:
+            mxlib.concurrent_rotation(rep, tier, seed, counter)
+        except env.BuildError:
+            pass
+    facts.report_fact_failures(rep, prop, fact_msgs)
     return rep.finish()
